@@ -12,10 +12,11 @@ from dst import runner
 PLANS = {
     "C20": [("D", "default", 600, 60000)],
     "C16": [("A", "rsa", 90, 1800), ("A", "ec", 40, 600),
-            ("A", "ecdsa", 32, 500)],
+            ("A", "ecdsa", 32, 500), ("A", "rsa_lhw", 2, 24)],
     "C17": [("A", "rsa", 90, 1800), ("A", "ec", 40, 600),
             ("A", "ecdsa", 32, 500), ("A", "ec_big", 3, 40),
-            ("A", "ec_default", 0, 2)],
+            ("A", "ec_default", 0, 2), ("A", "rsa_lhw", 2, 24),
+            ("A", "rsa_huge", 1, 8)],
     "C07": [("A", "rsa", 90, 1800), ("A", "ec", 40, 600),
             ("A", "ecdsa", 32, 500), ("A", "rsa_large", 2, 24),
             ("A", "ecdsa_large", 2, 24)],
